@@ -210,10 +210,17 @@ fn unhex_text(field: &str) -> String {
 }
 
 fn hexdigits_of_dbg(field: &str) -> String {
+    // the opcode bytes in hexadecimal: the last word of the text, `0x` / `$` prefix stripped, letter case ignored
+    // (a message such as "unknown opcode 0xED00" records the same bytes as "0xED00")
     let txt = unhex_text(field);
-    let t = txt.trim();
+    let t = txt.split_whitespace().last().unwrap_or("");
     let t = t.strip_prefix("0x").or_else(|| t.strip_prefix("0X")).or_else(|| t.strip_prefix('$')).unwrap_or(t);
-    t.chars().filter(|c| c.is_ascii_hexdigit()).map(|c| c.to_ascii_uppercase()).collect()
+    if t.chars().all(|c| c.is_ascii_hexdigit()) {
+        t.to_ascii_uppercase()
+    } else {
+        // not a hexadecimal word: compared as it is
+        format!("?{}", t)
+    }
 }
 
 fn hb(x: &str, i: usize) -> u8 {
@@ -415,7 +422,7 @@ pub fn compare(imp: &str, model: &str, p: &Proj) -> Option<(String, bool)> {
             Some(("disassembly size".into(), false))
         }
     } else if imp.starts_with("A ") {
-        if collapse_ws(imp) == collapse_ws(model) {
+        if collapse_ws(imp).to_ascii_uppercase() == collapse_ws(model).to_ascii_uppercase() {
             None
         } else {
             Some(("disassembly".into(), false))
